@@ -739,7 +739,14 @@ class VNumba:
 
     @property
     def config(self):
-        return types.SimpleNamespace(NUMBA_NUM_THREADS=self._rt.max_threads if self._rt.max_threads < 4096 else 16)
+        real = self._real.config
+
+        class _Cfg:
+            NUMBA_NUM_THREADS = self._rt.max_threads if self._rt.max_threads < 4096 else 16
+
+            def __getattr__(self, k):      # every other setting: the real one
+                return getattr(real, k)
+        return _Cfg()
 
     def set_num_threads(self, n):
         n = int(n)
@@ -854,8 +861,9 @@ class Twins:
         code = compile(tree, pf.__code__.co_filename + ':twin', 'exec')
         exec(code, g)
         fn = g[fdef.name]
-        fn.__defaults__ = pf.__defaults__
-        fn.__kwdefaults__ = pf.__kwdefaults__
+        base = inspect.unwrap(pf)        # (the source came from the innermost function of a functools.wraps chain)
+        fn.__defaults__ = base.__defaults__
+        fn.__kwdefaults__ = base.__kwdefaults__
         self.cache[key] = fn
         return fn
 
